@@ -6,4 +6,20 @@ EXTENDS Grid
 QBounds == {<<-24, 24>>, <<-36, -12>>, <<12, 12>>}
 TBounds == {<<0, 12>>, <<-24, 24>>, <<-36, -12>>, <<12, 12>>, <<-12, 0>>, <<0, 1536>>, <<-48, 60>>}
 DBounds == {<<-24, 24>>, <<0, 36>>, <<-12, -12>>}
+(* "wide" instances: 4, 5, 7, 10 and 12 bins per dimension (primes, composites, two-digit counts): widths are multiples
+   of 840 units = lcm{2 nb} so that every centre is an integer number of units *)
+WBounds == {<<-420, 420>>, <<0, 840>>, <<-2520, -1680>>}
+W3Bounds == {<<-420, 420>>, <<840, 840>>}
+W2Bounds == {<<-420, 420>>, <<0, 840>>}
+(* "int" instance: boxes whose corners are whole numbers, so the harness can also write them as python ints / integer
+   arrays: [0, 3] (centres 1.5, 0.75, 0.5 ...: an integer working array would truncate them) and [-24, -12] (all
+   centres for 1..3 bins are whole numbers too: gridpts can be given lists of integers, its documented input) *)
+IBounds == {<<0, 48>>, <<-384, -192>>}
+(* "scaled" instances (Scales # {0}): the basic boxes, one unit = 2^sc / 16 *)
+SBounds == {<<-24, 24>>, <<0, 12>>, <<-36, -12>>, <<12, 12>>}
+(* "fine" instance (Scales = {-20}: one unit = 2^-24): boxes of width 24 units = 1.43e-6 sitting at +-0.75, and a box
+   from 0 to 0.75: coordinates that need far more than 8 decimals *)
+ScalesS == {-1070, -1000, -30, 33, 996}
+ScalesF == {-20}
+FBounds == {<<12582912, 12582936>>, <<-12582936, -12582912>>, <<0, 12582912>>}
 =============================================================================
